@@ -66,6 +66,21 @@ theorem runT_minv (fixed : Bool) (s : TS) (h : MInv s.ms) (ops : List TOp) : MIn
     obtain ⟨l, hl⟩ := step_ms fixed s op
     rw [hl]; exact run_minv h l
 
+theorem run_append (s : MS) (l1 l2 : List Op) : run (run s l1) l2 = run s (l1 ++ l2) := by
+  induction l1 generalizing s with
+  | nil => rfl
+  | cons o l1 ih => exact ih _
+
+/-- … and it is literally a state of an untimed schedule: the concatenation of the per-step projections
+(`step_ms`) is a `ChanMicro` op list that reaches it from the same start -/
+theorem runT_reaches (fixed : Bool) (s : TS) (ops : List TOp) : ∃ l : List Op, (runT fixed s ops).ms = run s.ms l := by
+  induction ops generalizing s with
+  | nil => exact ⟨[], rfl⟩
+  | cons op ops ih =>
+    obtain ⟨l1, h1⟩ := step_ms fixed s op
+    obtain ⟨l2, h2⟩ := ih (stepT fixed s op).1
+    exact ⟨l1 ++ l2, by rw [← run_append, ← h1]; exact h2⟩
+
 /-- what one step does to the ghost log and to the `pri` fields: nothing, a stamp (both), or a timeout
 decided while the object's CURRENT `pri` is `≤ t` -/
 theorem step_tl (fixed : Bool) (s : TS) (op : TOp) :
